@@ -645,6 +645,18 @@ func wrap$u(s string) (int, bool, string)  { return three$u(s) }
 @body
 _, _, $out := wrap$u($in)
 
+### dupargs calls
+@decls
+func second$u(a, b string) string { return b }
+@body
+$out := second$u($in, $in)
+
+### dupargs3 calls
+@decls
+func third$u(a, b, c string) string { return c }
+@body
+$out := third$u("k", $in, $in)
+
 ### tupleerr calls
 @decls
 func te$u(s string) (string, error) { return s, nil }
